@@ -528,7 +528,7 @@ TFormat ==
 (* certainly leaves the range; "free" when only one reading of "exponent outside the int32 range" applies   *)
 LitMustFail(lt) == ~lt.ok \/ (~lt.inf /\ LitRangeError(lt))
                   \/ (~lt.inf /\ lt.ok /\ lt.M # Zero /\ ~IsDecimalLit(lt) /\ Len(LitK2(lt).mag) > 10)
-LitBinSmall(lt) == Len(LitK2(lt).mag) <= 4 \/ (Len(LitK2(lt).mag) = 5 /\ Lt(LitK2(lt).mag, FromInt(20001)))
+LitBinSmall(lt) == Len(LitK2(lt).mag) <= 5 \/ (Len(LitK2(lt).mag) = 6 /\ Lt(LitK2(lt).mag, FromInt(300001)))
 LitFree(lt) == lt.ok /\ ~lt.inf /\ lt.M # Zero /\ ~IsDecimalLit(lt) /\ ~LitMustFail(lt) /\ ~LitBinSmall(lt)
 
 ParseStepZ(z, lt, okRet, checkBase) ==
